@@ -35,7 +35,7 @@ func init() {
 	for k, v := range map[string]int{"regToken": 3, "regChain": 2, "updToken": 2, "optIn": 2, "optOut": 1, "setKey": 2, "undelegate": 3, "rawCall": 22} {
 		w[k] = v
 	}
-	base.Gen = GenOpts{Weights: w, HostilePct: 25, ExtremePct: 2, Anchor: true, Tempos: []int{7, 12, 21}, CapBits: 40, ClampBits: 50, Dynamic: avsDynamic}
+	base.Gen = GenOpts{Weights: w, HostilePct: 25, ExtremePct: 2, Anchor: true, Tempos: []int{7, 12, 21}, CapBits: 40, ClampBits: 40, Dynamic: avsDynamic}
 	base.Config = avsConfig
 	base.MinSteps, base.MaxSteps = 40, 120
 	registerWorldProp(&base)
